@@ -968,9 +968,16 @@ def r9(R):
                                if isinstance(x, ast.Return)}
     # the vote, by role: a call of `<storage>.tpc_vote`, directly or
     # through a local bound to that attribute
+    def vote_attr(v):
+        if isinstance(v, ast.Attribute) and v.attr == 'tpc_vote':
+            return True
+        return isinstance(v, ast.Call) and isinstance(
+            v.func, ast.Name) and v.func.id == 'getattr' and \
+            len(v.args) >= 2 and isinstance(v.args[1], ast.Constant) and \
+            v.args[1].value == 'tpc_vote'
+
     aliases = {t.id for a in walk_local(f.node)
-               if isinstance(a, ast.Assign) and isinstance(
-                   a.value, ast.Attribute) and a.value.attr == 'tpc_vote'
+               if isinstance(a, ast.Assign) and vote_attr(a.value)
                for t in a.targets if isinstance(t, ast.Name)}
     seen = [0]
 
@@ -993,6 +1000,19 @@ def r9(R):
             return True
         if node.kind == 'return' and id(node.ast) in exempt:
             return True
+        if node.kind == 'test' and lab in ('T', 'F'):
+            # `vote = getattr(storage, 'tpc_vote', None)`; `if vote is None`
+            for e, truth in implied_atoms(node.ast, lab):
+                if isinstance(e, ast.Compare) and len(e.ops) == 1 and \
+                        isinstance(e.left, ast.Name) and \
+                        e.left.id in aliases and isinstance(
+                            e.comparators[0], ast.Constant) and \
+                        e.comparators[0].value is None and \
+                        isinstance(e.ops[0], ast.Is) == truth:
+                    return True
+                if isinstance(e, ast.Name) and e.id in aliases and \
+                        not truth:
+                    return True
         return st
 
     def at(node, st):
